@@ -47,7 +47,19 @@ static SEEN_SIGNATURES: std::sync::OnceLock<std::sync::Mutex<HashMap<String, u32
 enum GState {
     Live,
     Revoked,
+    /// removed because the delegation that created it was revoked (directly or by a cascade)
+    RevokedDelegation,
     Deleted,
+}
+
+/// one delegation record (parent -> child), as the documented contract keeps it: the latest
+/// delegate(parent, child, ..) call defines what revoking that delegation takes away
+#[derive(Clone, Debug)]
+struct DRec {
+    parent: String,
+    child: String,
+    secrets: Vec<usize>,
+    grants: Vec<usize>,
 }
 
 #[derive(Clone, Debug)]
@@ -73,6 +85,7 @@ struct MEdge {
 struct Flags {
     expired: bool,
     revoked: bool,
+    revoked_delegation: bool,
     deleted: bool,
     no_atten: bool,
     any_edge: bool,
@@ -169,6 +182,7 @@ impl Model {
             let ok_state = match g.state {
                 GState::Live => true,
                 GState::Revoked => f.revoked,
+                GState::RevokedDelegation => f.revoked_delegation,
                 GState::Deleted => f.deleted,
             };
             if !ok_state {
@@ -212,6 +226,10 @@ impl Model {
         f.revoked = true;
         if self.level(who, secret, at, f) >= need {
             return "revoked-grant";
+        }
+        f.revoked_delegation = true;
+        if self.level(who, secret, at, f) >= need {
+            return "revoked-delegation";
         }
         f.deleted = true;
         if self.level(who, secret, at, f) >= need {
@@ -440,6 +458,8 @@ struct Prog<'a> {
     scratch: &'a std::path::Path,
     short_ttl_pending: Vec<Instant>, // latest possible expiry instants of short TTL grants
     last_ttl_pair: Option<(String, usize)>,
+    /// delegation records as the contract keeps them (mirrors delegate / revoke_delegation*)
+    deleg: Vec<DRec>,
     cfg: VaultConfig,
     password: Vec<u8>,
     /// the vault could not be reopened / re-keyed: the program cannot continue
@@ -578,7 +598,7 @@ impl<'a> Prog<'a> {
                 self.r.count(&format!("over_denial[{}]", op), 1);
                 // the usual cause: sweeping an expired TTL grant (or revoking) removes every grant edge of
                 // that (holder, secret) pair, also permanent ones made separately
-                let collateral = self.model.grants.iter().any(|g| g.secret == secret && (g.state == GState::Revoked || g.exp.map_or(false, |(lo, _)| lo < t1 + MARGIN)));
+                let collateral = self.model.grants.iter().any(|g| g.secret == secret && (g.state == GState::Revoked || g.state == GState::RevokedDelegation || g.exp.map_or(false, |(lo, _)| lo < t1 + MARGIN)));
                 self.r.count(if collateral { "over_denials_next_to_expired_or_revoked_grant" } else { "over_denials_other" }, 1);
                 if !collateral && std::env::var("C14_DEBUG").is_ok() {
                     eprintln!(
@@ -740,6 +760,9 @@ impl<'a> Prog<'a> {
             2,  // 19 rotate_master_key
             3,  // 20 restart: reopen the vault on the same store + graph
             2,  // 21 rotate_master_key immediately followed by a restart
+            3,  // 22 delegation burst: a small delegation DAG, often followed by a (cascading) revocation
+            2,  // 23 revoke_delegation
+            2,  // 24 revoke_delegation_cascading
         ];
         let k = self.rng.weighted(&w);
         match k {
@@ -965,8 +988,6 @@ impl<'a> Prog<'a> {
                 }
             }
             13 => {
-                // delegate: the parent must hold at least the delegated level on every secret; the child
-                // receives that level (optionally with a TTL)
                 let (parent, i) = if self.rng.chance(1, 4) { (self.model.root.clone(), self.pick_secret()) } else { self.pick_pair() };
                 let child = self.pick_user();
                 let mut idx = vec![i];
@@ -982,44 +1003,11 @@ impl<'a> Prog<'a> {
                     1 => Some(Duration::from_secs(3_600)),
                     _ => None,
                 };
-                let names: Vec<String> = idx.iter().map(|&j| self.names[j].clone()).collect();
-                let refs: Vec<&str> = names.iter().map(|s| s.as_str()).collect();
-                let t0 = Instant::now();
-                let res = self.vault.delegate(&parent, &child, &refs, perm_of(lvl), ttl);
-                let t1 = Instant::now();
-                self.trace.push(format!("delegate({}->{},{:?},L{}{})={}", parent, child, idx, lvl, ttl.map(|t| format!(",ttl{}ms", t.as_millis())).unwrap_or_default(), okerr(&res)));
-                self.r.count("op[delegate]", 1);
-                match res {
-                    Ok(_rec) => {
-                        for &j in &idx {
-                            self.judge("delegate", &parent, j, lvl, true, false, t0, t1);
-                        }
-                        let exp = ttl.map(|t| (t0 + t, t1 + t));
-                        for &j in &idx {
-                            self.model.grants.push(Grant { holder: child.clone(), secret: j, level: lvl, exp, state: GState::Live });
-                        }
-                        if let Some(t) = ttl {
-                            if t < Duration::from_secs(10) {
-                                self.short_ttl_pending.push(t1 + t);
-                                self.last_ttl_pair = Some((child.clone(), i));
-                                self.r.count("short_ttl_grants", 1);
-                            }
-                        }
-                        self.r.count("delegations_made", 1);
-                    }
-                    Err(e) => {
-                        let acl = matches!(e, VaultError::AccessDenied(_) | VaultError::InsufficientPermission(_));
-                        for &j in &idx {
-                            // a refusal concerns the whole request: only a single-secret request is
-                            // attributable to that secret
-                            if idx.len() == 1 {
-                                self.judge("delegate", &parent, j, lvl, false, acl, t0, t1);
-                            }
-                        }
-                        self.check_err("delegate", &e);
-                    }
-                }
+                self.do_delegate(&parent, &child, idx, lvl, ttl);
             }
+            22 => self.op_delegation_burst(),
+            23 => self.op_revoke_delegation(false, None),
+            24 => self.op_revoke_delegation(true, None),
             14 => {
                 // a directed edge between entities; mostly MEMBER (member -> group), sometimes a foreign type
                 let from = self.pick_actor();
@@ -1095,6 +1083,259 @@ impl<'a> Prog<'a> {
                     self.model.edges.push(MEdge { id, from: from.clone(), to: format!("#{}", i), etype: etype.to_string() });
                     self.r.count("non_grant_edges_to_secret", 1);
                     self.probe(&from, i);
+                }
+            }
+        }
+    }
+
+    /// delegate: the parent must hold at least the delegated level on every secret; the child
+    /// receives that level (optionally with a TTL). Returns whether the real call succeeded.
+    fn do_delegate(&mut self, parent: &str, child: &str, idx: Vec<usize>, lvl: u8, ttl: Option<Duration>) -> bool {
+        let names: Vec<String> = idx.iter().map(|&j| self.names[j].clone()).collect();
+        let refs: Vec<&str> = names.iter().map(|s| s.as_str()).collect();
+        let t0 = Instant::now();
+        let res = self.vault.delegate(parent, child, &refs, perm_of(lvl), ttl);
+        let t1 = Instant::now();
+        self.trace.push(format!("delegate({}->{},{:?},L{}{})={}", parent, child, idx, lvl, ttl.map(|t| format!(",ttl{}ms", t.as_millis())).unwrap_or_default(), okerr(&res)));
+        self.r.count("op[delegate]", 1);
+        match res {
+            Ok(_rec) => {
+                for &j in &idx {
+                    self.judge("delegate", parent, j, lvl, true, false, t0, t1);
+                }
+                let exp = ttl.map(|t| (t0 + t, t1 + t));
+                let mut made = Vec::new();
+                for &j in &idx {
+                    made.push(self.model.grants.len());
+                    self.model.grants.push(Grant { holder: child.to_string(), secret: j, level: lvl, exp, state: GState::Live });
+                }
+                // the record of this (parent, child) pair now describes this call; what an earlier call
+                // of the same pair handed out is no longer tied to any record (the model keeps it live)
+                let before = self.deleg.len();
+                self.deleg.retain(|d| !(d.parent == parent && d.child == child));
+                if self.deleg.len() < before {
+                    self.r.count("delegation_records_replaced", 1);
+                }
+                if self.deleg.iter().any(|d| d.child == child) {
+                    self.r.count("delegation_children_with_several_parents", 1);
+                }
+                self.deleg.push(DRec { parent: parent.to_string(), child: child.to_string(), secrets: idx.clone(), grants: made });
+                if let Some(t) = ttl {
+                    if t < Duration::from_secs(10) {
+                        self.short_ttl_pending.push(t1 + t);
+                        self.last_ttl_pair = Some((child.to_string(), idx[0]));
+                        self.r.count("short_ttl_grants", 1);
+                    }
+                }
+                self.r.count("delegations_made", 1);
+                true
+            }
+            Err(e) => {
+                let acl = matches!(e, VaultError::AccessDenied(_) | VaultError::InsufficientPermission(_));
+                // a refusal concerns the whole request: only a single-secret request is attributable
+                if idx.len() == 1 {
+                    self.judge("delegate", parent, idx[0], lvl, false, acl, t0, t1);
+                }
+                self.check_err("delegate", &e);
+                false
+            }
+        }
+    }
+
+    /// grow a small delegation DAG (holders hand subsets of what they hold to further agents, the
+    /// same agent may receive from several parents), then usually revoke one of its records
+    /// (mostly cascading) and look at what everybody can still do
+    fn op_delegation_burst(&mut self) {
+        let ex: Vec<usize> = (0..self.names.len()).filter(|&i| self.model.exists[i]).collect();
+        if ex.is_empty() {
+            return;
+        }
+        let mut pool: Vec<usize> = Vec::new();
+        for _ in 0..(1 + self.rng.below(3)) {
+            let i = *self.rng.pick(&ex);
+            if !pool.contains(&i) {
+                pool.push(i);
+            }
+        }
+        let origin = if self.rng.chance(2, 3) { self.model.root.clone() } else { self.pick_pair().0 };
+        // (agent, secrets it was handed in this burst)
+        let mut holders: Vec<(String, Vec<usize>)> = vec![(origin, pool.clone())];
+        let mut made: Vec<(String, String)> = Vec::new();
+        let lvl = if self.rng.chance(3, 4) { 1 } else { 2 };
+        self.r.count("delegation_bursts", 1);
+        for _ in 0..(3 + self.rng.below(6)) {
+            // later holders are preferred so that chains get deep enough to branch and re-join
+            let hi = holders.len();
+            let pick = if self.rng.bool() { hi - 1 - self.rng.below(hi.min(3)) } else { self.rng.below(hi) };
+            let (parent, held) = holders[pick].clone();
+            let child = self.pick_user();
+            if child == parent {
+                continue;
+            }
+            let mut sub: Vec<usize> = held.iter().copied().filter(|_| self.rng.bool()).collect();
+            if sub.is_empty() {
+                sub.push(*self.rng.pick(&held));
+            }
+            if self.do_delegate(&parent, &child, sub.clone(), lvl, None) {
+                made.push((parent.clone(), child.clone()));
+                holders.push((child, sub));
+            }
+        }
+        if made.is_empty() || self.rng.chance(1, 4) {
+            return;
+        }
+        let target = if self.rng.chance(2, 3) { made[self.rng.below(made.len().min(2))].clone() } else { self.rng.pick(&made).clone() };
+        let cascading = self.rng.chance(3, 4);
+        self.op_revoke_delegation(cascading, Some(target));
+        // everybody, on every secret of the burst
+        for who in self.actors[..self.n_users].to_vec() {
+            for &i in &pool {
+                self.probe_read(&who, i);
+            }
+        }
+    }
+
+    /// revoke_delegation / revoke_delegation_cascading, modelled by their documented contract: the
+    /// record (parent, child) is revoked — and, cascading, every record of every agent reachable
+    /// from the child through delegation records — and what each revoked record handed out is gone
+    fn op_revoke_delegation(&mut self, cascading: bool, pair: Option<(String, String)>) {
+        let (parent, child) = match pair {
+            Some(p) => p,
+            None => {
+                if !self.deleg.is_empty() && self.rng.chance(5, 6) {
+                    let d = self.rng.pick(&self.deleg);
+                    (d.parent.clone(), d.child.clone())
+                } else {
+                    (self.pick_requester(20), self.pick_user())
+                }
+            }
+        };
+        let opname = if cascading { "revoke_delegation_cascading" } else { "revoke_delegation" };
+        self.r.count(&format!("op[{}]", opname), 1);
+        let had_record = self.deleg.iter().any(|d| d.parent == parent && d.child == child);
+        let ok = if cascading {
+            let res = self.vault.revoke_delegation_cascading(&parent, &child);
+            self.trace.push(format!("{}({}->{})={}", opname, parent, child, match &res { Ok(v) => format!("ok[{}]", v.len()), Err(e) => err_variant(e).to_string() }));
+            match res {
+                Ok(_) => true,
+                Err(e) => {
+                    self.check_err(opname, &e);
+                    false
+                }
+            }
+        } else {
+            let res = self.vault.revoke_delegation(&parent, &child);
+            self.trace.push(format!("{}({}->{})={}", opname, parent, child, okerr(&res)));
+            match res {
+                Ok(_) => true,
+                Err(e) => {
+                    self.check_err(opname, &e);
+                    false
+                }
+            }
+        };
+        if !ok || !had_record {
+            // nothing the contract obliges (a cascade from a pair without a record is not described)
+            return;
+        }
+        let mut gone: Vec<usize> = Vec::new(); // indexes into self.deleg
+        for (k, d) in self.deleg.iter().enumerate() {
+            if d.parent == parent && d.child == child {
+                gone.push(k);
+            }
+        }
+        if cascading {
+            let mut reach: Vec<String> = vec![child.clone()];
+            let mut q: VecDeque<String> = VecDeque::from(vec![child.clone()]);
+            while let Some(cur) = q.pop_front() {
+                for (k, d) in self.deleg.iter().enumerate() {
+                    if d.parent == cur && !gone.contains(&k) {
+                        gone.push(k);
+                        if !reach.contains(&d.child) {
+                            reach.push(d.child.clone());
+                            q.push_back(d.child.clone());
+                        }
+                    }
+                }
+            }
+            self.r.count("cascade_records_revoked", gone.len() as u64);
+            // a re-joining DAG: some agent below the revoked edge had more than one revoked parent
+            let mut kids: Vec<&str> = gone.iter().map(|&k| self.deleg[k].child.as_str()).collect();
+            kids.sort();
+            let n = kids.len();
+            kids.dedup();
+            if kids.len() < n {
+                self.r.count("cascades_over_rejoining_dag", 1);
+            }
+        }
+        let mut n = 0;
+        for &k in &gone {
+            for &gi in &self.deleg[k].grants {
+                if self.model.grants[gi].state == GState::Live {
+                    self.model.grants[gi].state = GState::RevokedDelegation;
+                    n += 1;
+                }
+            }
+        }
+        self.r.count("grants_revoked_with_delegation", n);
+        self.r.count("delegations_revoked", gone.len() as u64);
+        // affected agents are looked at right away
+        let affected: Vec<(String, Vec<usize>)> = gone.iter().map(|&k| (self.deleg[k].child.clone(), self.deleg[k].secrets.clone())).collect();
+        gone.sort();
+        for &k in gone.iter().rev() {
+            self.deleg.remove(k);
+        }
+        // grant indexes stay valid (grants are never removed from the model), record indexes were
+        // only used above
+        for (who, secs) in affected {
+            for i in secs {
+                self.probe_read(&who, i);
+            }
+        }
+    }
+
+    /// one judged read-only look by `who` at secret `i`
+    fn probe_read(&mut self, who: &str, i: usize) {
+        let name = self.names[i].clone();
+        let who = who.to_string();
+        self.r.count("probes", 1);
+        match self.rng.below(4) {
+            0 => {
+                let t0 = Instant::now();
+                let res = self.vault.get(&who, &name);
+                let t1 = Instant::now();
+                self.trace.push(format!("get({},#{})={}", who, i, okerr(&res)));
+                self.simple_read("get", &who, i, 1, res, t0, t1);
+            }
+            1 => {
+                let t0 = Instant::now();
+                let res = self.vault.get_permission(&who, &name);
+                let t1 = Instant::now();
+                self.trace.push(format!("get_permission({},#{})={:?}", who, i, res));
+                self.r.count("op[get_permission]", 1);
+                match res {
+                    Some(p) => self.judge("get_permission", &who, i, level_of(p), true, false, t0, t1),
+                    None => self.judge("get_permission", &who, i, 1, false, true, t0, t1),
+                }
+            }
+            2 => {
+                let t0 = Instant::now();
+                let res = self.vault.get_version(&who, &name, 1);
+                let t1 = Instant::now();
+                self.trace.push(format!("get_version({},#{},1)={}", who, i, okerr(&res)));
+                self.simple_read("get_version", &who, i, 1, res, t0, t1);
+            }
+            _ => {
+                let t0 = Instant::now();
+                let res = self.vault.list(&who, &name);
+                let t1 = Instant::now();
+                self.trace.push(format!("list({},exact#{})={}", who, i, okerr(&res)));
+                self.r.count("op[list]", 1);
+                if let Ok(v) = res {
+                    if self.model.exists[i] {
+                        let got = v.iter().any(|x| *x == name);
+                        self.judge("list", &who, i, 1, got, true, t0, t1);
+                    }
                 }
             }
         }
@@ -1464,6 +1705,9 @@ fn run_program(case_seed: u64, scratch: &std::path::Path, max_ops: usize, r: &mu
         // behaviour profiles are then reloaded from the store when the vault is reopened
         cfg = cfg.with_anomaly_thresholds(tensor_vault::AnomalyThresholds::default());
     }
+    if rng.chance(2, 3) {
+        cfg = cfg.with_max_delegation_depth(3 + rng.below(4) as u32);
+    }
     let pw_len = 12 + rng.below(20);
     let pw = rng.bytes(pw_len);
     let vault = match Vault::new(&pw, graph.clone(), store.clone(), cfg.clone()) {
@@ -1541,6 +1785,7 @@ fn run_program(case_seed: u64, scratch: &std::path::Path, max_ops: usize, r: &mu
         scratch,
         short_ttl_pending: Vec::new(),
         last_ttl_pair: None,
+        deleg: Vec::new(),
         cfg,
         password: pw,
         dead: false,
@@ -1640,11 +1885,12 @@ fn main() {
 
     let meta = Meta {
         property: "C14",
-        rule: "one program = one real Vault (own TensorStore; graph engine on the same store in 2/3 of the programs) driven by 30-60 random operations (set/get/get_version/batch_get/list/list_versions/current_version/rotate/rollback/delete/grant/grant_with_permission/grant_with_ttl/revoke/delegate/get_permission/MEMBER- and foreign-edge add/remove/waits past TTLs/rotate_master_key/restart = reopening the vault on the same store and graph with the access model carried across) by root, 3-5 users and 2-3 groups over 4-7 secrets in several namespaces, under a random AttenuationPolicy; every non-root decision is compared with the access model (only-if direction), and, after calling the vault's flush entry point persist_anomaly_profiles (and sometimes create_snapshot), the store image / raw keys+fields / a saved snapshot file / audit records / error messages are searched for the unique 18+ byte cores of all secret names and values. Programs are distinct by the hash of their operation trace; a program is non-trivial when at least 5 decisions were allowed with a grant and at least 5 were denied without one.",
+        rule: "one program = one real Vault (own TensorStore; graph engine on the same store in 2/3 of the programs) driven by 30-60 random operations (set/get/get_version/batch_get/list/list_versions/current_version/rotate/rollback/delete/grant/grant_with_permission/grant_with_ttl/revoke/delegate/delegation bursts building small delegation DAGs/revoke_delegation/revoke_delegation_cascading/get_permission/MEMBER- and foreign-edge add/remove/waits past TTLs/rotate_master_key/restart = reopening the vault on the same store and graph with the access model carried across) by root, 3-5 users and 2-3 groups over 4-7 secrets in several namespaces, under a random AttenuationPolicy; every non-root decision is compared with the access model (only-if direction), and, after calling the vault's flush entry point persist_anomaly_profiles (and sometimes create_snapshot), the store image / raw keys+fields / a saved snapshot file / audit records / error messages are searched for the unique 18+ byte cores of all secret names and values. Programs are distinct by the hash of their operation trace; a program is non-trivial when at least 5 decisions were allowed with a grant and at least 5 were denied without one.",
         assumptions: vec![
             "only-if direction only: a refusal the model would have allowed is counted as over_denials, never a violation".into(),
             format!("a TTL grant counts as possibly live until (return of the granting call + ttl + {} ms); decisions inside that window are don't-care", MARGIN.as_millis()),
             "required levels: read/get_version/batch_get/list/list_versions/current_version = Read, overwrite/rotate/rollback = Write, delete and grant* = Admin (as documented on Permission); revoke is executed and its effect modelled but its own authorisation is not judged (the statement is silent)".into(),
+            "revoke_delegation(parent, child) takes away what the current (latest) delegate(parent, child, ..) call handed out; revoke_delegation_cascading additionally does so for every delegation record of every agent reachable from the child through delegation records; grants from an earlier, replaced delegate call of the same pair and a cascade started at a pair without a record are not judged".into(),
             "delegate is modelled by its documented contract: succeeds only if the parent holds at least the delegated level on every secret; the child then holds that level (with the TTL if given)".into(),
             "a group is an entity reached over directed MEMBER edges; edges of other types and MEMBER edges pointing at a secret node confer nothing; distance = MEMBER hops + 1, attenuated by the documented table, nothing at or beyond the horizon".into(),
             "names/values shorter than 16 bytes are exercised but not searched for (a match could be accidental); encodings searched: verbatim, lowercase hex, base64".into(),
@@ -1662,6 +1908,8 @@ fn main() {
                 ("expired_ttl_decisive", args.by_tier(40, 800)),
                 ("at_rest_scans", args.by_tier(400, 8_000)),
                 ("snapshot_files_scanned", args.by_tier(100, 2_000)),
+                ("delegations_revoked", args.by_tier(200, 4_000)),
+                ("cascades_over_rejoining_dag", args.by_tier(15, 300)),
                 ("restarts", args.by_tier(100, 2_000)),
                 ("restarts_with_pending_ttl_grant", args.by_tier(30, 600)),
                 ("master_key_rotations", args.by_tier(60, 1_200)),
